@@ -60,8 +60,19 @@ theorem validate_child_id_full (v : Ver) (value f2 f4 : Str) (d : Data)
           simp only [GenCodec.validate_child_id, LC.bind, LC.seq, LC.catchV, LC.pyIntC, LC.rangeV, LC.dataAt, hc, hv, hr, h2, h4,
             validate_command_eq, validate_message_type_eq, hcmd, hty, childIdOK, Gen.systemChildId]
           simp only [h0, h1, and_self, if_true, decide_true, Bool.true_and]
-          cases ha : (cmd == Gen.internalCommand v && (Gen.nodeIdRequestTypes v).contains type) <;>
-          cases hb : ((Gen.strictSystemCommands v).contains cmd && child != 255) <;> simp [ha, hb]
+          -- the two conditions may be spelled with their operands or conjuncts exchanged: split on the four atomic
+          -- facts and give simp each in both orientations
+          have flip : ∀ a b : Int, ¬ a = b → ¬ b = a := fun _ _ h h' => h h'.symm
+          by_cases e2 : type ∈ Gen.nodeIdRequestTypes v <;> by_cases e3 : cmd ∈ Gen.strictSystemCommands v <;>
+            by_cases e4 : child = 255 <;> by_cases e1 : cmd = Gen.internalCommand v
+          all_goals
+            have e2c : (Gen.nodeIdRequestTypes v).contains type = decide (type ∈ Gen.nodeIdRequestTypes v) := by simp
+            have e3c : (Gen.strictSystemCommands v).contains cmd = decide (cmd ∈ Gen.strictSystemCommands v) := by simp
+            first
+              | (subst e1; subst e4; simp [e2, e3, e2c, e3c]; done)
+              | (subst e1; simp [e2, e3, e4, flip _ _ e4, e2c, e3c]; done)
+              | (subst e4; simp [e1, flip _ _ e1, e2, e3, e2c, e3c]; done)
+              | (simp [e1, flip _ _ e1, e2, e3, e4, flip _ _ e4, e2c, e3c]; done)
         · have hok : childIdOK v child cmd type = false := by
             rcases (by omega : child < 0 ∨ 255 < child) with h | h
             · simp [childIdOK, Gen.systemChildId, show ¬ (0 : Int) ≤ child by omega]
